@@ -35,7 +35,7 @@ class C04(PoolScenario):
     expected_faults = ["restore", "torn_write", "short_read"]
     expected_probes = ["empty_sparse_checkpoint", "nonfinite_in_document", "negative_sparse_index", "lockstep_ops"]
     spec_opts = {"p_default": 0.3}
-    record_opts = {"no_none": False, "numeric_cuts": False}
+    record_opts = {"no_none": False, "numeric_cuts": False, "big_ints": 0.02}
 
     def gen_step(self, rng, ab, specs, recs, tier, si):
         out = super().gen_step(rng, ab, specs, recs, tier, si)
@@ -135,6 +135,14 @@ class C04(PoolScenario):
             raise self.violation(self._culprit(d, obj.name), "fromJson", "fixpoint:%s" % (d[2] if d else "?"),
                                  "toJson(fromJson(doc)) differs from doc at %s" % (d[:1] if d else "?"), si,
                                  {"doc": ndoc, "again": rdoc})
+        from .c09 import raw_same
+
+        if not raw_same(doc, o3.value):
+            # the same after rounding to doubles, but not the same document: a number was changed by the round trip (an integer
+            # beyond 2**53 kept by a live aggregator comes back as the nearest double)
+            raise self.violation(obj.name, "fromJson", "fixpoint:number-rounded",
+                                 "toJson(fromJson(doc)) spells a number differently from doc: %s vs %s" % (
+                                     json.dumps(doc, sort_keys=True)[:300], json.dumps(o3.value, sort_keys=True)[:300]), si)
         # "compares equal to the original's content": == between the reload and a second, independent reload of the
         # same document (a mutable original carries its quantity function, which is not content)
         r2 = call(hg.Factory.fromJson, json.loads(text))
@@ -296,6 +304,10 @@ class C04(PoolScenario):
                     self.lib(o, op, si)
                     w.meta[st["obj"]]["fills"] = w.meta[st["obj"]].get("fills", 0) + 1
                     wt = specmod.dec_float(st["w"])
+                    if wt > 0 and any(isinstance(v, int) and not isinstance(v, bool) and abs(v) > 2 ** 53 for v in w.records[st["rec"]].values()):
+                        # an integer beyond 2**53: sums and means are no longer exact, the reference document is not consulted
+                        w.meta[st["obj"]]["cover"] = None
+                        w.bump("probe_integer_beyond_double_precision")
                     if w.meta[st["obj"]].get("cover") is not None and wt > 0:
                         w.meta[st["obj"]]["cover"].append((st["rec"], wt))
                 elif not o.ok:
